@@ -13,7 +13,7 @@ use std::rc::Rc;
 pub static ENGINE: Engine = Engine {
     prop: "C06",
     level: "exploration",
-    rule: "every body T with <= N AST nodes over {X, Y, a, b, true, false, not, & | => <=>, if, exists/forall a|b, shadowing binders exists X / lfp X / gfp X, further binders lfp/gfp Y and Z (three distinct nested binders), counting >=1 <=1 =1}: the reference evaluates T on ALL points of the lattice of functions over the formula's free variables (16, or 256 with a third variable), decides monotonicity by brute force over all comparable pairs and computes all fixed, pre-fixed and post-fixed points; for monotone bodies the real `lfp X # T` / `mu` / `gfp` / `nu` must terminate within the fuel, be a fixed point, lie below every pre-fixed point (lfp) / above every post-fixed point (gfp) and equal the reference iteration. BDDEnv::fp: all 256 maps t on D={F,T,a,-a} x 4 starts with a call-counting closure: first element of the orbit fixed by t, exactly index+1 calls; cyclic orbits exhaust the fuel. distinct = distinct (body, binder spelling) texts + distinct (map, start)",
+    rule: "every body T with <= N AST nodes over {X, Y, a, b, true, false, not, & | => <=>, if, exists/forall a|b, shadowing binders exists X / lfp X / gfp X, further binders lfp/gfp Y and Z (three distinct nested binders), counting >=1 <=1 =1}: the reference evaluates T on ALL points of the lattice of functions over the formula's free variables (16, or 256 with a third variable), decides monotonicity by brute force over all comparable pairs and computes all fixed, pre-fixed and post-fixed points; for monotone bodies the real `lfp X # T` / `mu` / `gfp` / `nu` must terminate within the fuel, be a fixed point, lie below every pre-fixed point (lfp) / above every post-fixed point (gfp) and equal the reference iteration. BDDEnv::fp: all 256 maps t on D={F,T,a,-a} x 4 starts with a call-counting closure: first element of the orbit fixed by t, exactly index+1 calls; cyclic orbits exhaust the fuel; strictly increasing chains of every length 1..65 over six variables need exactly that many applications. Many-round fixed points: k-bit counter reachability (2k+1 names, 2^k rounds, k = 1..6) and its gfp dual against a bit-vector reference. distinct = distinct (body, binder spelling) texts + distinct (map, start)",
     assumptions: &["reference transformer semantics in harness/src/refl.rs; bodies whose nested fixed points diverge in the reference are out of scope (counted)", "fuel 20000 iterations where the lattice height is <= 9"],
     max_shards: 64,
     run,
@@ -283,11 +283,96 @@ fn check_fp_api(ctx: &mut Ctx, map: usize, start: usize) {
     }
 }
 
+
+/// long orbits: a strictly increasing chain D_0 < D_1 < .. < D_(n-1) of functions of six
+/// variables with t(D_i) = D_(i+1) and t(D_(n-1)) = D_(n-1): fp must return the top after
+/// exactly n applications, for every chain length up to 65
+fn check_fp_chain(ctx: &mut Ctx, n: usize) {
+    let c = json!({"part": "fp-chain", "n": n});
+    ctx.begin_case(|| c.clone());
+    ctx.count("evaluations", 1);
+    let syms = [0usize, 3, 4, 9, 10, 12];
+    let sp = crate::space::Space::<usize>::empty(&syms);
+    // D_i = the first i assignments (D_0 = false, D_64 = true)
+    let chain: Vec<Rc<BDD<usize>>> = (0..n).map(|i| sp.intern(&sp.canon(if i >= 64 { !0u64 } else { (1u64 << i) - 1 }))).collect();
+    let calls = Cell::new(0u64);
+    let t = |x: Rc<BDD<usize>>| {
+        calls.set(calls.get() + 1);
+        let i = chain.iter().position(|e| **e == *x).expect("machinery: fp handed the transformer a diagram outside the chain");
+        chain[(i + 1).min(n - 1)].clone()
+    };
+    rsbdd::verif_hooks::set_fp_fuel(Some(1000));
+    let r = guarded(|| sp.env.fp(chain[0].clone(), t));
+    rsbdd::verif_hooks::set_fp_fuel(None);
+    let key = format!("{TAG} fp: strictly increasing chain of {n} diagrams");
+    match r {
+        Err(p) => ctx.violation(key, format!("fp did not return: {p}"), c),
+        Ok(res) => {
+            if *res != *chain[n - 1] {
+                ctx.violation(key, format!("fp stopped at an element that the transformer does not map to itself (reached index {:?} of {})", chain.iter().position(|e| **e == *res), n - 1), c);
+            } else if calls.get() != n as u64 {
+                ctx.violation(key, format!("fp applied the transformer {} times, the chain needs exactly {n}", calls.get()), c);
+            } else {
+                ctx.count("fp_chains_confirmed", 1);
+                ctx.distinct(&("chain", n));
+            }
+        }
+    }
+}
+
+/// language level: least fixed points that need 2^k rounds (k-bit counter reachability,
+/// 2k+1 names) and their greatest-fixed-point duals
+fn check_many_rounds(ctx: &mut Ctx, k: usize, dual: bool) {
+    let lfp = crate::textsem::counter_reachability(k);
+    let a = if dual {
+        // gfp dual: nu Z # -(body[Z := -Z])  ==  -(mu Z # body)
+        match &lfp {
+            Ast::Fp(z, _, body) => {
+                fn neg_z(a: &Ast, z: &str) -> Ast {
+                    match a {
+                        Ast::Var(v) if v == z => Ast::not(Ast::var(z)),
+                        Ast::Not(x) => Ast::not(neg_z(x, z)),
+                        Ast::Bin(o, l, r) => Ast::bin(*o, neg_z(l, z), neg_z(r, z)),
+                        Ast::Q(e, vs, b) => Ast::Q(*e, vs.clone(), Box::new(neg_z(b, z))),
+                        o => o.clone(),
+                    }
+                }
+                Ast::fp(z, true, Ast::not(neg_z(body, z)))
+            }
+            _ => unreachable!(),
+        }
+    } else {
+        lfp
+    };
+    let text = refl::pp(&a, refl::MINIMAL);
+    if refl::parse(&text).as_ref() != Ok(&a) {
+        panic!("machinery: round trip failed for {text}");
+    }
+    ctx.count("many_round_fixed_points", 1);
+    if crate::textsem::check_text_big(ctx, TAG, &a, &text) {
+        ctx.distinct(&text);
+    }
+}
+
 fn run(ctx: &mut Ctx) {
     let mut idx = 0u64;
     let th = ctx.thorough();
     body_sweep(ctx, false, if th { 6 } else { 5 }, &mut idx);
     body_sweep(ctx, true, if th { 5 } else { 4 }, &mut idx);
+    for n in 1..=65usize {
+        idx += 1;
+        if ctx.mine(idx) {
+            check_fp_chain(ctx, n);
+        }
+    }
+    for k in 1..=6usize {
+        for dual in [false, true] {
+            idx += 1;
+            if ctx.mine(idx) {
+                check_many_rounds(ctx, k, dual);
+            }
+        }
+    }
     for map in 0..256usize {
         for start in 0..4usize {
             idx += 1;
@@ -299,6 +384,17 @@ fn run(ctx: &mut Ctx) {
 }
 
 fn replay(ctx: &mut Ctx, c: &Value) {
+    if c["part"].as_str() == Some("fp-chain") {
+        check_fp_chain(ctx, c["n"].as_u64().unwrap_or(1) as usize);
+        return;
+    }
+    if c["part"].as_str() == Some("text") && c["text"].as_str().map(|t| t.contains("s0")).unwrap_or(false) {
+        let text = c["text"].as_str().unwrap_or("");
+        if let Ok(a) = refl::parse(text) {
+            crate::textsem::check_text_big(ctx, TAG, &a, text);
+        }
+        return;
+    }
     if c["part"].as_str() == Some("fp") {
         check_fp_api(ctx, c["map"].as_u64().unwrap_or(0) as usize, c["start"].as_u64().unwrap_or(0) as usize);
         return;
